@@ -4,7 +4,7 @@ from . import core
 
 PROP = "C06"
 DRIVER = "drv_cells"
-LEAN_MODULES = ["MesaModel.Props.C06", "MesaModel.Props.C18Cells"]
+LEAN_MODULES = ["MesaModel.Props.C06", "MesaModel.Props.C18Cells", "MesaModel.Props.C01Cells"]
 THEOREMS = ["Mesa.Cells." + t for t in (
     "C06_spaces_wellformed", "C06_mirror", "C06_capacity", "C06_views", "C06_select_random_empty_cell",
     "C06_remove_leaves_cell", "C06_direction_map_generated", "C06_invariant_all_histories",
@@ -12,7 +12,9 @@ THEOREMS = ["Mesa.Cells." + t for t in (
     "C06_hex_direction_names", "C06_voronoi_default_capacity",
     "C06_assignment_exact", "C06_unplace_and_fixed_exact", "C06_select_random_empty_exact", "C06_clear_cell", "C06_cell_empty_attribute",
     "C18_cells_setCell_reject_unchanged", "C18_cells_moveTo_reject_unchanged", "C18_cells_moveRelative_reject_unchanged",
-    "C18_cells_gridMove_reject_unchanged", "C18_cells_rejected_call_is_noop", "C18_cells_rejected_call_is_noop_with_edits")]
+    "C18_cells_gridMove_reject_unchanged", "C18_cells_rejected_call_is_noop", "C18_cells_rejected_call_is_noop_with_edits",
+    # C01 on the cells model (Props/C01Cells.lean; also to be listed by harness/c01.py): audited here so that they cannot rot
+    "C01_cells_collections_carry_the_space_generator", "C01_cells_selection_determined", "C01_cells_random_empty_determined")]
 COUNTS = {"quick": 1500, "thorough": 100000}
 TRUSTED = [
     "Python object identity of cells/agents is modelled by names (cell key in space._cells, agent creation index)",
